@@ -184,6 +184,52 @@ class DQueue:
     def qsize(self):
         return len(self.q)
 
+    def pending(self):
+        """the queued items in the order get() would hand them out"""
+        return list(self.q)
+
+    def clear(self):
+        del self.q[:]
+
+
+class DPriorityQueue(DQueue):
+    """cooperative queue.PriorityQueue: smallest item first"""
+
+    def put(self, x, block=True, timeout=None):
+        import bisect
+        bisect.insort(self.q, x)
+        if DQueue.on_put:
+            DQueue.on_put(self, x)
+
+
+class DLifoQueue(DQueue):
+    """cooperative queue.LifoQueue"""
+
+    def put(self, x, block=True, timeout=None):
+        self.q.insert(0, x)
+        if DQueue.on_put:
+            DQueue.on_put(self, x)
+
+
+# whatever queue class the module under test uses is replaced by its cooperative counterpart: the harness does not depend
+# on the kind of queue the updater keeps its requests in, only on "put never blocks, get blocks while empty"
+QUEUE_CLASSES = {'Queue': DQueue, 'SimpleQueue': DQueue, 'PriorityQueue': DPriorityQueue, 'LifoQueue': DLifoQueue}
+
+
+def find_packet(item):
+    """the CRTP packet inside a queue item (the item itself, or a member of a tuple/list such as (priority, nr, pk))"""
+    if hasattr(item, 'channel') and hasattr(item, 'data'):
+        return item
+    if isinstance(item, (tuple, list)):
+        for x in item:
+            pk = find_packet(x)
+            if pk is not None:
+                return pk
+    for name in ('pk', 'packet'):
+        if hasattr(item, name):
+            return find_packet(getattr(item, name))
+    return None
+
 
 # ------------------------------------------------------------------------------------------- device
 
@@ -315,12 +361,15 @@ class Harness:
         import cflib.crazyflie.param as P
         self.P = P
         self.saved = (P.Lock, P.Event, P.Queue, threading.Thread.start, DQueue.on_put)
+        self.saved_queues = {n: getattr(P, n) for n in QUEUE_CLASSES if hasattr(P, n)}
         self.sched = Sched()
         Sched.cur = self.sched
         self.log = []           # observations, drained per event
         self.cfg = cfg
         self.dead = []
         P.Lock, P.Event, P.Queue = DLock, DEvent, DQueue
+        for n in self.saved_queues:
+            setattr(P, n, QUEUE_CLASSES[n])
         threading.Thread.start = lambda t: Sched.cur.spawn(t)
         try:
             self._build(cfg)
@@ -415,6 +464,9 @@ class Harness:
 
     def _on_put(self, q, pk):
         if q is self.updater.request_queue:
+            pk = find_packet(pk)
+            if pk is None:
+                raise HarnessError('no CRTP packet found in the item put on the request queue')
             self.log.append(('enq', pk.channel, bytes(pk.data)))
 
     def canon(self, ty, v):
@@ -478,7 +530,7 @@ class Harness:
 
     def ext_can_get(self):
         w = self.sched.waiting(self.fetcher)
-        return bool(w and w[0] == 'get' and self.fetcher.request_queue.q)
+        return bool(w and w[0] == 'get' and self.fetcher.request_queue.qsize())
 
     def ext_can_send(self):
         w = self.sched.waiting(self.fetcher)
@@ -489,7 +541,7 @@ class Harness:
         w = self.sched.waiting(f)
         toc = self.cf.param.toc
         return {
-            'queue': [int.from_bytes(bytes(pk.data[1:3]), 'little') for pk in f.request_queue.q],
+            'queue': [int.from_bytes(bytes(pk.data[1:3]), 'little') for pk in map(find_packet, f.request_queue.pending())],
             'hand': 1 if (w and w[0] == 'acquire') else 0,
             'lock': int(f._lock.l), 'req': f._req_param, 'count': f._count,
             'pers': [int(bool(toc.get_element_by_id(e[0]).is_persistent())) for e in self.cfg['toc']],
@@ -528,7 +580,7 @@ class Harness:
     # ---- scheduler-side events
     def can_uget(self):
         w = self.sched.waiting(self.updater)
-        return bool(w and w[0] == 'get' and self.updater.request_queue.q)
+        return bool(w and w[0] == 'get' and self.updater.request_queue.qsize())
 
     def can_usend(self):
         w = self.sched.waiting(self.updater)
@@ -584,7 +636,7 @@ class Harness:
             except KeyError:
                 vals.append(None)
         return {
-            'queue': [(pk.channel, bytes(pk.data)) for pk in u.request_queue.q],
+            'queue': [(pk.channel, bytes(pk.data)) for pk in map(find_packet, u.request_queue.pending())],
             'hand': 1 if (w and w[0] == 'acquire') else 0,
             'lock': int(u.wait_lock.l),
             'pat': None if u._lock_pattern is None else bytes(u._lock_pattern),
@@ -604,4 +656,6 @@ class Harness:
         finally:
             P = self.P
             P.Lock, P.Event, P.Queue, threading.Thread.start, DQueue.on_put = self.saved
+            for n, c in self.saved_queues.items():
+                setattr(P, n, c)
             Sched.cur = None
